@@ -211,6 +211,63 @@ func Paths(v ref.V, prefix ref.Sel, out *[]Path, maxDepth int) {
 	}
 }
 
+// RelPaths derives up to max places that are addressed relative to the length of a list, string
+// or byte string reachable by one of the given paths: negative indexes, slices with a negative
+// or an absent bound. The selected value is computed by the reference interpreter.
+func RelPaths(r *rand.Rand, root ref.V, paths []Path, max int) []Path {
+	var out []Path
+	var cands []Path
+	for _, p := range paths {
+		switch p.Val.K {
+		case ref.KList:
+			if len(p.Val.L) > 0 {
+				cands = append(cands, p)
+			}
+		case ref.KString:
+			if len([]rune(p.Val.S)) > 0 {
+				cands = append(cands, p)
+			}
+		case ref.KBytes:
+			if len(p.Val.Y) > 0 {
+				cands = append(cands, p)
+			}
+		}
+	}
+	for try := 0; try < 4*max && len(out) < max && len(cands) > 0; try++ {
+		p := cands[r.IntN(len(cands))]
+		var n int64
+		switch p.Val.K {
+		case ref.KList:
+			n = int64(len(p.Val.L))
+		case ref.KString:
+			n = int64(len([]rune(p.Val.S)))
+		default:
+			n = int64(len(p.Val.Y))
+		}
+		k := 1 + r.Int64N(n)
+		var g ref.Seg
+		switch r.IntN(4) {
+		case 0:
+			if p.Val.K == ref.KString {
+				g = ref.Seg{Kind: ref.SSlice, Lo: ref.I64(-k)}
+			} else {
+				g = ref.Seg{Kind: ref.SIndex, Idx: -k}
+			}
+		case 1:
+			g = ref.Seg{Kind: ref.SSlice, Lo: ref.I64(-k)}
+		case 2:
+			g = ref.Seg{Kind: ref.SSlice, Lo: ref.I64(r.Int64N(n))}
+		default:
+			g = ref.Seg{Kind: ref.SSlice, Hi: ref.I64(-k)}
+		}
+		sel := append(append(ref.Sel{}, p.Sel...), g)
+		if o, v := ref.Select(sel, root); o == ref.OValue {
+			out = append(out, Path{Sel: sel, Val: v})
+		}
+	}
+	return out
+}
+
 // NormMapKeys sorts entries by key and drops duplicates.
 func NormMapKeys(m []ref.KV) []ref.KV {
 	sort.SliceStable(m, func(i, j int) bool { return m[i].K < m[j].K })
